@@ -301,8 +301,7 @@ def run_library(case):
                 args = dict(m["args"])
                 for p in g["params"]:
                     if p["kind"] in ir.IN_KINDS and p["kind"] != "implied" and p["name"] not in args and "default" in p:
-                        d = p["default"]
-                        args[p["name"]] = (d == "true") if ir.TYPES[p["T"]]["k"] == "b" else (float(d) if ir.TYPES[p["T"]]["k"] == "r" else int(d))
+                        args[p["name"]] = ir.default_value(p)
                     if p["name"] in args and p.get("T") in ("float", "double") and isinstance(args[p["name"]], int) and not isinstance(args[p["name"]], bool):
                         args[p["name"]] = float(args[p["name"]])
                 this = serials.get(m.get("obj")) if (f.get("cls") and not f.get("static")) else None
